@@ -163,6 +163,13 @@ func cmdCheck(args []string) int {
 	if c.tier == "thorough" && len(pp.Thorough) > 0 {
 		ps = pp.Thorough
 	}
+	gen, gerr := generateHarnessCached(c.repo)
+	if gerr != nil {
+		fmt.Fprintln(os.Stderr, "INCONCLUSIVE property="+c.prop+" reason=harness-generation-failed")
+		fmt.Fprintln(os.Stderr, gerr)
+		return 2
+	}
+	ps = append(append([]PlanSpec(nil), ps...), gen.specs[c.prop]...)
 	specs := expand(ps)
 	pkgSet := map[string]bool{}
 	for _, s := range specs {
@@ -457,6 +464,7 @@ func cmdCheck(args []string) int {
 			"timing_s":                      map[string]float64{"load_and_ssa": round3(loadS), "explore": round3(exploreS), "native": round3(nativeS)},
 			"trusted_base":                  []string{"go/ssa", "gosym executor", "z3/cvc5", "stub contracts listed under stubs"},
 			"checker_cmd":                   "bin/gosym check " + c.prop + " " + c.tier,
+			"generated_from_source":         map[string]interface{}{"counts": gen.counts, "uncovered": gen.uncovered},
 		},
 	}
 	os.MkdirAll(filepath.Join(c.verif, "evidence"), 0o755)
